@@ -68,7 +68,9 @@ static const VecOp VECOPS[] = {
 };
 static const int NVECOPS = sizeof(VECOPS) / sizeof(VECOPS[0]);
 
-enum Alias { AL_NONE = 0, AL_RES_A = 1, AL_RES_B = 2, AL_RES_A_B = 3, AL_A_B = 4 };
+enum Alias { AL_NONE = 0, AL_RES_A = 1, AL_RES_B = 2, AL_RES_A_B = 3, AL_A_B = 4,
+             AL_RES_A_COMPACT = 5 };  // res == a pointer with a_sl >= res_sl + N (compacting a padded vector inside its own buffer:
+                                      // limb 0 is in place, the other limbs are disjoint and are never overwritten before they are read)
 
 struct VecShape {
   uint64_t N = 2;
@@ -149,6 +151,7 @@ inline bool alias_ok(const VecOp& op, const VecShape& s) {
     case AL_RES_B: return op.nin >= 2 && s.rsl == s.bsl;
     case AL_RES_A_B: return op.nin >= 2 && s.rsl == s.asl && s.rsl == s.bsl;
     case AL_A_B: return op.nin >= 2 && s.asl == s.bsl;
+    case AL_RES_A_COMPACT: return op.nin >= 1 && !op.a_big && s.asl >= s.rsl + s.N;
   }
   return false;
 }
@@ -176,7 +179,7 @@ inline ApiCase gen_vecop(const MODULE* mod, const VecOp& op, const VecShape& s0,
   bool b_is_a = (s.alias == AL_A_B || s.alias == AL_RES_A_B);
   if (ia >= 0) for (size_t e = 0; e < ae; ++e) put_i64(c.bufs[ia].init, e, vec_a_value(e));
   if (ib >= 0) for (size_t e = 0; e < be; ++e) put_i64(c.bufs[ib].init, e, b_is_a ? vec_a_value(e) : vec_b_value(e));
-  if (s.alias == AL_RES_A || s.alias == AL_RES_A_B) c.bufs[ia].alias_of = ir;
+  if (s.alias == AL_RES_A || s.alias == AL_RES_A_B || s.alias == AL_RES_A_COMPACT) c.bufs[ia].alias_of = ir;
   if (s.alias == AL_RES_B || s.alias == AL_RES_A_B) c.bufs[ib].alias_of = ir;
   if (s.alias == AL_A_B) c.bufs[ib].alias_of = ia;
   // model image
